@@ -169,6 +169,9 @@ func main() {
 			}
 		}
 	default:
+		if c, ok := extraCmds[os.Args[1]]; ok {
+			os.Exit(c(os.Args[2:]))
+		}
 		fmt.Fprintln(os.Stderr, "unknown command")
 		os.Exit(2)
 	}
@@ -226,3 +229,19 @@ func registerHeaps(w *World) {
 		heapSorts[k] = hs
 	}
 }
+
+func init() {
+	extraCmds["funcs"] = func(args []string) int {
+		w, err := loadWorld("/repo", args)
+		if err != nil {
+			fmt.Fprintln(os.Stderr, err)
+			return 2
+		}
+		for _, fn := range w.FuncList {
+			fmt.Println(funcKey(fn))
+		}
+		return 0
+	}
+}
+
+var extraCmds = map[string]func(args []string) int{}
